@@ -383,6 +383,9 @@ class Interp:
             r = PSet([self.lift(i) for i in x])
         elif isinstance(x, types.MethodType):
             r = BoundMethod(x.__func__, self.lift(x.__self__))
+        elif hasattr(type(x), '__fields__') and isinstance(getattr(type(x), '__fields__'), tuple):
+            # recordclass / dataobject record (constraint tables): a plain data record -> object with the same fields
+            r = PObj(type(x), {f: self.lift(getattr(x, f)) for f in type(x).__fields__})
         else:
             r = Foreign(x)
         c[id(x)] = (x, r)
